@@ -128,3 +128,22 @@ def parse_output(res, out):
     # coverage: lines like "<Put line 160, col 1 to line 161 ... of module Trash>: 12:345"
     for m in re.finditer(r'^<(\w+) line \d+, col \d+ to line \d+, col \d+ of module (\w+)>: (\d+):(\d+)', out, re.M):
         res.coverage[m.group(1)] = (int(m.group(3)), int(m.group(4)))
+
+
+def validate_steps(steps, module='TrashTrace', init='InitT', next_='NextT', constants=None, workers=4, timeout=1800):
+    """Have TLC judge observed steps.  -> (TlcResult, set of accepted 1-based step numbers)"""
+    constants = constants or {'MaxObj': 12, 'MaxClock': 12, 'DayTicks': 3}
+    d = tempfile.mkdtemp(prefix='vtrace-', dir='/dev/shm' if os.path.isdir('/dev/shm') else None)
+    try:
+        p = os.path.join(d, 'steps.json')
+        with open(p, 'w') as f:
+            json.dump(steps, f)
+        text = 'INIT %s\nNEXT %s\nCONSTANTS %s\nCHECK_DEADLOCK FALSE\n' % (
+            init, next_, ' '.join('%s = %s' % kv for kv in constants.items()))
+        res = run_tlc(module, cfg_text=text, workers=workers, timeout=timeout, env={'TRACE_FILE': p})
+        acc = set()
+        for m in re.finditer(r'<<"##ACCEPT", (\d+)>>', res.raw):
+            acc.add(int(m.group(1)))
+        return res, acc
+    finally:
+        shutil.rmtree(d, ignore_errors=True)
